@@ -253,7 +253,8 @@ class Fixture:
             open(os.path.join(base, "g", name + ".ego"), "w").write(text)
         self.filedir = os.path.join(sd, "childfiles")
         os.makedirs(self.filedir)
-        common = {"ego.runtime.path.lib": self.lib, "ego.compiler.import": "true"}
+        # the http.Server write timeout (120 s by default) closes the connection of a request whose child is slow to start
+        common = {"ego.runtime.path.lib": self.lib, "ego.compiler.import": "true", "ego.server.write.timeout": "30m"}
         conf = {"inproc": ([], {}), "pipe": (["--child-services"], {}),
                 "file": (["--child-services"], {"ego.server.child.services.dir": self.filedir})}
         self.srv = {}
